@@ -78,6 +78,11 @@ Section Spec.
     | _, _ => false
     end.
 
+  (** with empty_is_none=True the empty text and the empty byte string ARE None (that is the
+      documented meaning of the option): they are not values of such a slot *)
+  Definition leaf_empty (l : lval) : bool :=
+    match l with LText [] | LBytes [] => true | _ => false end.
+
   (** may member [f] be None?  absent (min_occurs = 0) or nillable; in the positional form
       every member is on the wire, so a None there must be a nillable single member
       (or validation is off) *)
@@ -107,7 +112,11 @@ Section Spec.
     match v with
     | DNone => false
     | DRaw _ => false
-    | DLeaf l => negb multi && match t with DPrim k => leaf_ok k l | _ => false end
+    | DLeaf l => negb multi && match t with
+                               | DPrim k => leaf_ok k l
+                               | DPrimE k => leaf_ok k l && negb (leaf_empty l)
+                               | _ => false
+                               end
     | DList xs =>
         if multi then
           (fix go (l : list dval) : bool :=
@@ -203,7 +212,7 @@ Section Spec.
     match v with
     | DNone => JNull
     | DRaw _ => JNull
-    | DLeaf l => match t with DPrim k => sleaf k l | _ => JNull end
+    | DLeaf l => match t with DPrim k | DPrimE k => sleaf k l | _ => JNull end
     | DList xs =>
         if multi then
           JList ((fix go (l : list dval) : list jv :=
@@ -288,7 +297,13 @@ Section Spec.
         | KBytes, JBytes b => if msgpack then Ok (DLeaf (LBytes b)) else VFault
         | KBytes, JStr s =>
             if msgpack then VFault
-            else match b64decode false s with Ok b => Ok (DLeaf (LBytes b)) | _ => VFault end
+            else match b64decode false s with
+                 | Ok b =>
+                     (* strictly (RFC 4648): the text is the encoding of what it decodes to,
+                        so padding occurs at the end only and nothing is skipped *)
+                     if text_eqb (b64encode false b) s then Ok (DLeaf (LBytes b)) else VFault
+                 | _ => VFault
+                 end
         | _, _ => VFault
         end
     end.
